@@ -28,6 +28,7 @@ std::string Plan::text() const
           << f.red << " " << f.storage << " " << f.del << " " << f.mm << " "
           << f.reorder << " " << f.swap << "\n";
     }
+    if (nosweep) o << "opt nosweep\n";
     if (!expect_class.empty()) {
         o << "expect " << expect_hash << " " << expect_class << "\n";
     }
@@ -58,6 +59,7 @@ bool Plan::parse(const std::string &txt)
     steps.clear();
     expect_class.clear();
     expect_hash = 0;
+    nosweep = false;
     bool ok = false;
     while (std::getline(in, line)) {
         if (line.empty() || line[0] == '#') continue;
@@ -91,6 +93,7 @@ bool Plan::parse(const std::string &txt)
             cfg.forests.push_back(f);
             continue;
         }
+        if (key == "opt") { std::string w; ls >> w; if (w == "nosweep") nosweep = true; continue; }
         if (key == "expect") {
             ls >> expect_hash;
             std::getline(ls, expect_class);
